@@ -216,3 +216,19 @@ func EnvInt(name string, def int) int {
 
 // ReplayPath is the file the TestReplay entry point must execute ("" if none).
 func ReplayPath() string { return os.Getenv("VERIF_REPLAY") }
+
+// RepoRoot is the google/wuffs tree under test (/repo for registered commands).
+func RepoRoot() string {
+	if v := os.Getenv("VERIF_REPO"); v != "" {
+		return v
+	}
+	return "/repo"
+}
+
+// VerifRoot is /verif (overridable for development copies only).
+func VerifRoot() string {
+	if v := os.Getenv("VERIF_ROOT"); v != "" {
+		return v
+	}
+	return "/verif"
+}
